@@ -1,1 +1,682 @@
+(* C06 — invariants and proofs. *)
 From Dastard Require Import Common.ZX C06.Model C06.Spec.
+From Coq Require Import ZifyBool.
+
+(* ---------- small facts ---------- *)
+
+Lemma beqb_refl b : Bool.eqb b b = true.
+Proof. now destruct b. Qed.
+
+Lemma rstate_eqb_refl r : rstate_eqb r r = true.
+Proof. unfold rstate_eqb. rewrite !beqb_refl, !Z.eqb_refl. reflexivity. Qed.
+
+Lemma rstate_eqb_eq a b : rstate_eqb a b = true -> a = b.
+Proof.
+  destruct a, b; unfold rstate_eqb; cbn [Model.active Model.paused Model.t22 Model.t3 Model.toff
+    Model.pat_base Model.pat_dir Model.basepath].
+  rewrite !andb_true_iff. intros [[[[[[[H1 H2] H3] H4] H5] H6] H7] H8].
+  apply eqb_prop in H1, H2, H3, H4, H5. apply Z.eqb_eq in H6, H7, H8. now subst.
+Qed.
+
+Lemma w3_eqb_eq x y : w3_eqb x y = true <-> x = y.
+Proof.
+  destruct x as [[a b] c], y as [[a' b'] c']; unfold w3_eqb; cbn [fst snd].
+  rewrite !andb_true_iff. split.
+  - intros [[H1 H2] H3]. apply eqb_prop in H1, H2, H3. now subst.
+  - intro E; inversion E; subst. now rewrite !beqb_refl.
+Qed.
+
+Lemma writers_eqb_refl w : writers_eqb w w = true.
+Proof. apply (list_eqb_eq w3_eqb w3_eqb_eq). reflexivity. Qed.
+
+Lemma writers_eqb_eq a b : writers_eqb a b = true -> a = b.
+Proof. apply (list_eqb_eq w3_eqb w3_eqb_eq). Qed.
+
+Lemma in_zrange_nat x : forall n a, In x (zrange_nat a n) -> a <= x < a + Z.of_nat n.
+Proof.
+  induction n as [|n IH]; intros a H; cbn [zrange_nat] in H.
+  - contradiction.
+  - destruct H as [H | H]; [lia | apply IH in H; lia].
+Qed.
+
+Lemma make_directory_some u p i :
+  make_directory u p = Some i -> p <> 0 /\ 0 <= i < 10000 /\ is_used u (p, i) = false.
+Proof.
+  unfold make_directory. destruct (p =? 0) eqn:E; [discriminate|].
+  intro H. apply find_some in H as [Hin Hf]. unfold zrange in Hin. apply in_zrange_nat in Hin.
+  split; [lia|]. split; [lia|]. now apply negb_true_iff in Hf.
+Qed.
+
+(* ---------- the invariant ---------- *)
+
+(* a channel's writer handles are exactly what the reported state promises, and a channel that holds a
+   writer carries the reported pause flag *)
+Definition chan_ok (r : rstate) (c : chan) : Prop :=
+  w22 c = active r && t22 r /\
+  w3 c = active r && t3 r /\
+  woff c = active r && toff r && hasproj c /\
+  (any_writer c = true -> cpaused c = paused r).
+
+Definition Inv (proj : list bool) (s : st) : Prop :=
+  map hasproj (chans s) = proj /\
+  Forall (chan_ok (rs s)) (chans s) /\
+  (active (rs s) = true -> t22 (rs s) || t3 (rs s) || (toff (rs s) && existsb (fun b => b) proj) = true) /\
+  (active (rs s) = true -> is_used (used s) (pat_base (rs s), pat_dir (rs s)) = true).
+
+Lemma init_inv c : Inv (c_proj c) (init c).
+Proof.
+  unfold Inv, init; cbn [chans rs used]. split; [|split; [|split]].
+  - rewrite map_map. cbn [init_chan hasproj]. apply map_id.
+  - apply Forall_forall. intros x Hx. apply in_map_iff in Hx as [p [<- _]].
+    unfold chan_ok, init_chan, init_rs, any_writer; cbn. repeat split; auto.
+  - cbn. discriminate.
+  - cbn. discriminate.
+Qed.
+
+(* ---------- per-channel lemmas ---------- *)
+
+Lemma pause_chan_ok r b c : chan_ok r c -> chan_ok (ws_pause b r) (set_pause b c).
+Proof.
+  unfold chan_ok, ws_pause, set_pause, any_writer; cbn. intros (H1 & H2 & H3 & H4). repeat split; auto.
+Qed.
+
+Lemma stop_chan_ok r c : chan_ok (ws_stop r) (remove_all c).
+Proof. unfold chan_ok, ws_stop, remove_all, any_writer; cbn. repeat split; auto; discriminate. Qed.
+
+Lemma start_chan_ok (rq : wcreq) c path i :
+  any_writer c = false ->
+  chan_ok {| active := true; paused := false; t22 := rq22 rq; t3 := rq3 rq; toff := rqoff rq;
+             pat_base := path; pat_dir := i; basepath := path |} (start_chan true rq c).
+Proof.
+  unfold any_writer. destruct c as [a b c0 p h n]; cbn [w22 w3 woff]. intro H.
+  apply orb_false_iff in H as [H H3]. apply orb_false_iff in H as [H1 H2]. subst.
+  unfold chan_ok, start_chan, set_ljh22, set_off, set_ljh3, any_writer.
+  destruct (rq22 rq), (rqoff rq), (rq3 rq), h; cbn; repeat split; auto; discriminate.
+Qed.
+
+Lemma start_chan_hasproj fx rq c : hasproj (start_chan fx rq c) = hasproj c.
+Proof.
+  unfold start_chan, set_ljh22, set_off, set_ljh3.
+  destruct (rq22 rq), (rqoff rq), (rq3 rq), (hasproj c) eqn:E; cbn; rewrite ?E; cbn; auto.
+Qed.
+
+Lemma publish_chan_spec r c n :
+  chan_ok r c -> 0 < n ->
+  let '(c', (d22, d3, doff)) := publish_chan c n in
+  d22 = (if expect_store r (hasproj c) LJH22 then n else 0) /\
+  d3 = (if expect_store r (hasproj c) LJH3 then n else 0) /\
+  doff = (if expect_store r (hasproj c) OFF then n else 0) /\
+  chan_ok r c' /\ hasproj c' = hasproj c /\ writers_of c' = writers_of c.
+Proof.
+  intros (H1 & H2 & H3 & H4) Hn. unfold publish_chan.
+  destruct (n <=? 0) eqn:En; [lia|].
+  destruct c as [a b c0 p h m], r as [ac pa x y z pb pd bp].
+  unfold expect_store, type_on, eligible, any_writer, chan_ok, writers_of in *;
+    cbn [w22 w3 woff cpaused hasproj nwritten active paused t22 t3 toff] in *.
+  subst a b c0.
+  destruct ac, pa, x, y, z, h, p; cbn in *;
+    try (specialize (H4 eq_refl); discriminate); repeat split; auto.
+Qed.
+
+(* ---------- state-level lemmas ---------- *)
+
+Lemma pause_inv proj s b :
+  Inv proj s -> Inv proj (set_rs (set_chans s (map (set_pause b) (chans s))) (ws_pause b (rs s))).
+Proof.
+  intros (H1 & H2 & H3 & H4). unfold Inv, set_rs, set_chans; cbn [chans rs used].
+  split; [|split; [|split]].
+  - rewrite map_map. cbn [set_pause hasproj]. exact H1.
+  - apply Forall_forall. intros x Hx. apply in_map_iff in Hx as [c [<- Hc]].
+    apply pause_chan_ok. eapply Forall_forall in H2; eauto.
+  - exact H3.
+  - exact H4.
+Qed.
+
+Lemma stop_inv proj s :
+  Inv proj s -> Inv proj (set_rs (set_chans s (map remove_all (chans s))) (ws_stop (rs s))).
+Proof.
+  intros (H1 & H2 & H3 & H4). unfold Inv, set_rs, set_chans; cbn [chans rs used].
+  split; [|split; [|split]].
+  - rewrite map_map. cbn [remove_all hasproj]. exact H1.
+  - apply Forall_forall. intros x Hx. apply in_map_iff in Hx as [c [<- Hc]]. apply stop_chan_ok.
+  - cbn. discriminate.
+  - cbn. discriminate.
+Qed.
+
+Lemma is_used_cons u p q : is_used (p :: u) q = pair_eqb q p || is_used u q.
+Proof. reflexivity. Qed.
+
+Lemma pair_eqb_refl p : pair_eqb p p = true.
+Proof. unfold pair_eqb. now rewrite !Z.eqb_refl. Qed.
+
+Lemma existsb_false_forall {A} (f : A -> bool) l : existsb f l = false -> forall x, In x l -> f x = false.
+Proof.
+  intros H x Hx. destruct (f x) eqn:E; auto.
+  assert (existsb f l = true) by (apply existsb_exists; eauto). congruence.
+Qed.
+
+Lemma existsb_map {A B} (f : B -> bool) (g : A -> B) l : existsb f (map g l) = existsb (fun x => f (g x)) l.
+Proof. induction l; cbn; congruence. Qed.
+
+(* the result of a START that passed all validations *)
+Definition started (s : st) (r : wcreq) (path i : Z) : st :=
+  {| rs := {| active := true; paused := false; t22 := rq22 r; t3 := rq3 r; toff := rqoff r;
+              pat_base := path; pat_dir := i; basepath := path |};
+     used := (path, i) :: used s; mapn := mapn s;
+     chans := map (start_chan true r) (chans s) |}.
+
+Lemma start_inv proj s r path i :
+  Inv proj s -> existsb any_writer (chans s) = false ->
+  (rq22 r || rqoff r || rq3 r) = true ->
+  (rqoff r && negb (existsb hasproj (chans s))) = false ->
+  Inv proj (started s r path i).
+Proof.
+  intros (H1 & H2 & H3 & H4) Hw Ht Hp. unfold Inv, started; cbn [chans rs used].
+  split; [|split; [|split]].
+  - rewrite map_map. rewrite <- H1. apply map_ext. intro c. apply start_chan_hasproj.
+  - apply Forall_forall. intros x Hx. apply in_map_iff in Hx as [c [<- Hc]].
+    apply start_chan_ok. eapply existsb_false_forall in Hw; eauto.
+  - intros _. cbn [t22 t3 toff]. rewrite <- H1. rewrite existsb_map.
+    destruct (rq22 r), (rq3 r), (rqoff r); cbn in *; auto; try discriminate.
+    apply negb_false_iff in Hp. exact Hp.
+  - intros _. cbn [pat_base pat_dir]. rewrite is_used_cons, pair_eqb_refl. reflexivity.
+Qed.
+
+(* ---------- the checker accepts every step of the model ---------- *)
+
+Record K (s : st) (k : cst) : Prop :=
+  { K_rs : k_rs k = rs s; K_w : k_writers k = map writers_of (chans s); K_used : k_used k = used s }.
+
+Definition kof (s : st) : cst := {| k_rs := rs s; k_writers := map writers_of (chans s); k_used := used s |}.
+Lemma K_kof s : K s (kof s).
+Proof. now constructor. Qed.
+Lemma K_eq s k : K s k -> k = kof s.
+Proof. destruct k; intros [H1 H2 H3]; cbn in *; subst; reflexivity. Qed.
+
+Lemma reject_check s s' kd :
+  rs s' = rs s -> chans s' = chans s ->
+  check_req (kof s) kd {| o_ok := false; o_rs := rs s'; o_writers := map writers_of (chans s');
+                           o_dirnew := false; o_closed := negb (active (rs s')); o_msg := true |} = Some (kof s).
+Proof.
+  intros H1 H2. unfold check_req; cbn. rewrite H1, H2. now rewrite rstate_eqb_refl, writers_eqb_refl.
+Qed.
+
+Lemma writers_remove_all l : forallb no_writer (map writers_of (map remove_all l)) = true.
+Proof. induction l; cbn; auto. Qed.
+
+Lemma wc_check proj s r :
+  Inv proj s ->
+  let (s', b) := step s (WC r) in
+  exists k', check_step proj (kof s) (WC r) b = Some k' /\ Inv proj s' /\ K s' k'.
+Proof.
+  intro HI. unfold step, step_gen, write_control.
+  destruct (classify (rq_str r)) eqn:Ek.
+  - (* PAUSE *)
+    cbn [is_ok is_start andb]. unfold req_obs, check_step. rewrite Ek. unfold check_req; cbn.
+    eexists; split; [reflexivity|]. split; [now apply pause_inv | now constructor].
+  - (* UNPAUSE *)
+    destruct (unpause_arg (rq_str r)) eqn:Eu.
+    + cbn [is_ok is_start andb]. unfold req_obs, check_step. rewrite Ek. unfold check_req; cbn.
+      eexists; split; [reflexivity|]. split; [now apply pause_inv | now constructor].
+    + cbn [is_ok andb]. unfold req_obs, check_step. rewrite reject_check by reflexivity.
+      eexists; split; [reflexivity|]. split; [assumption | apply K_kof].
+    + destruct (active (rs s) && (negb true || single_line l)) eqn:Ea.
+      * cbn [is_ok is_start andb]. unfold req_obs, check_step. rewrite Ek. unfold check_req; cbn.
+        eexists; split; [reflexivity|]. split; [now apply pause_inv | now constructor].
+      * cbn [is_ok andb]. unfold req_obs, check_step. rewrite reject_check by reflexivity.
+        eexists; split; [reflexivity|]. split; [assumption | apply K_kof].
+  - (* STOP *)
+    cbn [is_ok is_start andb]. unfold req_obs, check_step. rewrite Ek. unfold check_req.
+    cbn [o_msg o_ok negb o_writers o_closed o_rs set_rs set_chans chans rs ws_stop active].
+    rewrite writers_remove_all. cbn.
+    eexists; split; [reflexivity|]. split; [now apply stop_inv | now constructor].
+  - (* START *)
+    unfold write_control_start.
+    destruct (negb (rq22 r || rqoff r || rq3 r)) eqn:E1.
+    { cbn [is_ok andb]. unfold req_obs, check_step. rewrite reject_check by reflexivity.
+      eexists; split; [reflexivity|]. split; [assumption | apply K_kof]. }
+    destruct (existsb any_writer (chans s)) eqn:E2.
+    { cbn [is_ok andb]. unfold req_obs, check_step. rewrite reject_check by reflexivity.
+      eexists; split; [reflexivity|]. split; [assumption | apply K_kof]. }
+    destruct (rqoff r && negb (existsb hasproj (chans s))) eqn:E3.
+    { cbn [is_ok andb]. unfold req_obs, check_step. rewrite reject_check by reflexivity.
+      eexists; split; [reflexivity|]. split; [assumption | apply K_kof]. }
+    destruct (negb (mapn s =? -1) && negb (mapn s =? zlen (chans s))) eqn:E4.
+    { cbn [is_ok andb]. unfold req_obs, check_step. rewrite reject_check by reflexivity.
+      eexists; split; [reflexivity|]. split; [| constructor; reflexivity].
+      destruct HI as (H1 & H2 & H3 & H4). unfold Inv; cbn [chans rs used]. auto. }
+    set (path := if negb (rq_path r =? 0) then rq_path r else basepath (rs s)).
+    destruct (make_directory (used s) path) as [i|] eqn:E5.
+    2:{ cbn [is_ok andb]. unfold req_obs, check_step. rewrite reject_check by reflexivity.
+        eexists; split; [reflexivity|]. split; [assumption | apply K_kof]. }
+    cbn [negb andb is_ok is_start].
+    apply make_directory_some in E5 as (Hp & Hi & Hu).
+    fold (started s r path i).
+    unfold req_obs, check_step. rewrite Ek. unfold check_req.
+    cbn [o_msg o_ok negb o_rs o_dirnew started rs active pat_base pat_dir kof k_used].
+    rewrite Hu. replace (0 <=? i) with true by lia. cbn [negb andb].
+    eexists; split; [reflexivity|]. split.
+    + apply negb_false_iff in E1. now apply start_inv.
+    + constructor; reflexivity.
+  - (* not a request *)
+    cbn [is_ok andb]. unfold req_obs, check_step. rewrite reject_check by reflexivity.
+    eexists; split; [reflexivity|]. split; [assumption | apply K_kof].
+Qed.
+
+Lemma label_check proj s l :
+  Inv proj s ->
+  let (s', b) := step s (LABEL l) in
+  exists k', check_step proj (kof s) (LABEL l) b = Some k' /\ Inv proj s' /\ K s' k'.
+Proof.
+  intro HI. unfold step, step_gen, set_label.
+  destruct (zlen l =? 0).
+  - cbn [is_ok]. unfold req_obs, check_step. rewrite reject_check by reflexivity.
+    eexists; split; [reflexivity|]. split; [assumption | apply K_kof].
+  - destruct (active (rs s) && (negb true || single_line l)).
+    + cbn [is_ok]. unfold req_obs, check_step, check_req; cbn.
+      eexists; split; [reflexivity|]. split; [assumption | now constructor].
+    + cbn [is_ok]. unfold req_obs, check_step. rewrite reject_check by reflexivity.
+      eexists; split; [reflexivity|]. split; [assumption | apply K_kof].
+Qed.
+
+Lemma upd_nth_map {A B} (f : A -> B) : forall (l : list A) i x c,
+  nth_error l i = Some c -> f x = f c -> map f (upd_nth l i x) = map f l.
+Proof.
+  induction l as [|h t IH]; intros [|i] x c H E; cbn in *; try discriminate; auto.
+  - inversion H; subst. now rewrite E.
+  - f_equal. eapply IH; eauto.
+Qed.
+
+Lemma upd_nth_Forall {A} (P : A -> Prop) : forall (l : list A) i x,
+  Forall P l -> P x -> Forall P (upd_nth l i x).
+Proof.
+  induction l as [|h t IH]; intros [|i] x H Hx; cbn; auto; inversion H; subst; constructor; auto.
+Qed.
+
+Lemma nth_map_hasproj : forall (l : list chan) i c,
+  nth_error l i = Some c -> nth i (map hasproj l) false = hasproj c.
+Proof.
+  induction l as [|h t IH]; intros [|i] c H; cbn in *; try discriminate; auto.
+  now inversion H.
+Qed.
+
+Lemma pub_check proj s ch n :
+  Inv proj s ->
+  let (s', b) := step s (PUB ch n) in
+  exists k', check_step proj (kof s) (PUB ch n) b = Some k' /\ Inv proj s' /\ K s' k'.
+Proof.
+  intro HI. pose proof HI as (H1 & H2 & H3 & H4). unfold step, step_gen.
+  assert (Hlen : zlen proj = zlen (chans s)).
+  { rewrite <- H1. unfold zlen. now rewrite map_length. }
+  destruct ((0 <=? ch) && (ch <? zlen (chans s))) eqn:Er.
+  2:{ unfold check_step, check_pub. rewrite Hlen, Er. cbn.
+      eexists; split; [reflexivity|]. split; [assumption | apply K_kof]. }
+  destruct (nth_error (chans s) (Z.to_nat ch)) as [c|] eqn:En.
+  2:{ apply nth_error_None in En. unfold zlen in Er. lia. }
+  assert (Hc : chan_ok (rs s) c).
+  { eapply Forall_forall in H2; eauto. eapply nth_error_In; eauto. }
+  destruct (0 <? n) eqn:Epos.
+  - pose proof (publish_chan_spec (rs s) c n Hc ltac:(lia)) as Hp.
+    destruct (publish_chan c n) as [c' [[d22 d3] doff]]. destruct Hp as (E1 & E2 & E3 & Hok & Hh & Hw).
+    cbn [fst snd]. unfold check_step, check_pub. rewrite Hlen, Er, Epos. cbn [andb kof k_rs].
+    replace (nth (Z.to_nat ch) proj false) with (hasproj c)
+      by (rewrite <- H1; symmetry; now apply nth_map_hasproj).
+    rewrite E1, E2, E3, !Z.eqb_refl. cbn.
+    eexists; split; [reflexivity|]. split.
+    + unfold Inv, set_chans; cbn [chans rs used]. split; [|split; [|split]]; auto.
+      * rewrite <- H1. eapply upd_nth_map; eauto.
+      * apply upd_nth_Forall; auto.
+    + constructor; cbn; auto. symmetry. eapply upd_nth_map; eauto.
+  - unfold publish_chan. replace (n <=? 0) with true by lia. cbn [fst snd].
+    unfold check_step, check_pub. rewrite Hlen, Er, Epos. cbn.
+    eexists; split; [reflexivity|]. split.
+    + unfold Inv, set_chans; cbn [chans rs used]. split; [|split; [|split]]; auto.
+      * rewrite <- H1. eapply upd_nth_map; eauto.
+      * apply upd_nth_Forall; auto.
+    + constructor; cbn; auto. symmetry. eapply upd_nth_map; eauto.
+Qed.
+
+Lemma step_check proj s o :
+  Inv proj s ->
+  let (s', b) := step s o in
+  exists k', check_step proj (kof s) o b = Some k' /\ Inv proj s' /\ K s' k'.
+Proof.
+  destruct o; [apply wc_check | apply label_check | apply pub_check].
+Qed.
+
+Lemma step_not_panic proj s o : Inv proj s -> snd (step s o) <> OPanic.
+Proof.
+  intros HI E. pose proof (step_check proj s o HI) as H. destruct (step s o) as [s' b]. cbn in E. subst b.
+  destruct H as (k' & Hc & _). destruct o; discriminate.
+Qed.
+
+Lemma run_check proj : forall ops s,
+  Inv proj s ->
+  check_from proj (kof s) (combine ops (snd (run s ops))) = true /\ Inv proj (fst (run s ops)).
+Proof.
+  induction ops as [|o rest IH]; intros s HI; [cbn; auto|].
+  unfold run in *. cbn [run_gen].
+  pose proof (step_check proj s o HI) as H. pose proof (step_not_panic proj s o HI) as Hn.
+  unfold step in *. destruct (step_gen true s o) as [s1 b]. cbn [snd] in Hn.
+  destruct H as (k' & Hc & HI' & HK). apply K_eq in HK. subst k'.
+  specialize (IH s1 HI'). destruct (run_gen true s1 rest) as [s2 bs]. cbn [fst snd] in *.
+  destruct b; try congruence; cbn [snd fst combine check_from]; rewrite Hc; exact IH.
+Qed.
+
+(* ---------- headline statements ---------- *)
+
+Lemma model_satisfies_checker :
+  forall (c : config) (ops : list op),
+    let s0 := init c in
+    C06_check (c_proj c) (c_used c) (rs s0) (map writers_of (chans s0))
+              (combine ops (snd (run s0 ops))) = true.
+Proof.
+  intros c ops s0. unfold C06_check. apply (run_check (c_proj c) ops s0). apply init_inv.
+Qed.
+
+Lemma reachable_inv c ops : Inv (c_proj c) (fst (run (init c) ops)).
+Proof. apply run_check, init_inv. Qed.
+
+Lemma run_length : forall ops s proj, Inv proj s -> length (snd (run s ops)) = length ops.
+Proof.
+  induction ops as [|o rest IH]; intros s proj HI; [reflexivity|].
+  unfold run in *. cbn [run_gen].
+  pose proof (step_check proj s o HI) as H. pose proof (step_not_panic proj s o HI) as Hn.
+  unfold step in *. destruct (step_gen true s o) as [s1 b]. cbn [snd] in Hn.
+  destruct H as (k' & Hc & HI' & HK).
+  specialize (IH s1 proj HI'). destruct (run_gen true s1 rest) as [s2 bs]. cbn [snd] in *.
+  destruct b; try congruence; cbn; now rewrite IH.
+Qed.
+
+(* records are stored exactly when the reported state says so *)
+Lemma stores_iff_reported_inv proj s ch n T :
+  Inv proj s -> 0 <= ch < zlen proj -> 0 < n ->
+  stored (snd (step s (PUB ch n))) T =
+    if expect_store (rs s) (nth (Z.to_nat ch) proj false) T then n else 0.
+Proof.
+  intros HI Hch Hn. pose proof (pub_check proj s ch n HI) as H.
+  destruct (step s (PUB ch n)) as [s' b]. destruct H as (k' & Hc & _). cbn [snd].
+  unfold check_step in Hc. destruct b as [|d22 d3 doff others nw|]; try discriminate.
+  destruct (check_pub proj (kof s) ch n d22 d3 doff others) eqn:E; [|discriminate].
+  unfold check_pub in E. cbn [kof k_rs] in E.
+  replace ((0 <=? ch) && (ch <? zlen proj) && (0 <? n)) with true in E by lia.
+  cbn [andb] in E. rewrite !andb_true_iff in E. destruct E as [[[E1 E2] E3] _].
+  destruct T; cbn [stored]; lia.
+Qed.
+
+(* what acceptance by the checker says about directories *)
+Lemma is_used_cons_false u d x : is_used (d :: u) x = false -> x <> d /\ is_used u x = false.
+Proof.
+  rewrite is_used_cons. intro H. apply orb_false_iff in H as [H1 H2]. split; auto.
+  intro E; subst. now rewrite pair_eqb_refl in H1.
+Qed.
+
+Lemma check_req_used k kd q k' :
+  check_req k kd q = Some k' ->
+  (k_used k' = k_used k /\ ~ (kd = Some KStart /\ o_ok q = true)) \/
+  (kd = Some KStart /\ o_ok q = true /\ o_dirnew q = true /\
+   is_used (k_used k) (pat_base (o_rs q), pat_dir (o_rs q)) = false /\
+   k_used k' = (pat_base (o_rs q), pat_dir (o_rs q)) :: k_used k).
+Proof.
+  unfold check_req. destruct (negb (o_msg q)); [discriminate|].
+  destruct (o_ok q) eqn:Eok; cbn [negb].
+  2:{ destruct (_ && _); [|discriminate]. intro H; inversion H; subst. left. split; auto. intros [_ X]; discriminate. }
+  destruct kd as [[| | | |]|]; try (intro H; inversion H; subst; cbn; left; split; [reflexivity | intros [X _]; discriminate]).
+  - destruct (forallb no_writer (o_writers q) && o_closed q); [|discriminate].
+    intro H; inversion H; subst; cbn; left; split; [reflexivity | intros [X _]; discriminate].
+  - destruct (active (o_rs q) && (0 <=? pat_dir (o_rs q)) &&
+              negb (is_used (k_used k) (pat_base (o_rs q), pat_dir (o_rs q))) && o_dirnew q) eqn:E; [|discriminate].
+    intro H; inversion H; subst; cbn. right.
+    rewrite !andb_true_iff in E. destruct E as [[[_ _] E3] E4]. apply negb_true_iff in E3. auto.
+Qed.
+
+Lemma checker_dirs_fresh proj : forall h k,
+  check_from proj k h = true ->
+  NoDup (start_dirs h) /\ forall d, In d (start_dirs h) -> is_used (k_used k) d = false.
+Proof.
+  induction h as [|[o b] rest IH]; intros k H; cbn [start_dirs].
+  - split; [constructor | contradiction].
+  - cbn [check_from] in H. destruct (check_step proj k o b) as [k'|] eqn:Ec; [|discriminate].
+    specialize (IH k' H). destruct IH as [Hnd Hfr].
+    unfold check_step in Ec.
+    destruct o as [r|l|ch n], b as [q|d22 d3 doff others nw|]; try discriminate.
+    + apply check_req_used in Ec. destruct Ec as [[Eu Hn] | (Hk & Hok & _ & Hu & Eu)].
+      * assert (E : o_ok q && is_start (classify (rq_str r)) = false).
+        { destruct (o_ok q) eqn:E1; auto. destruct (classify (rq_str r)) eqn:E2; auto.
+          exfalso. apply Hn. auto. }
+        rewrite E. rewrite Eu in Hfr. auto.
+      * inversion Hk as [Hk']. rewrite Hok. rewrite Hk'. cbn [is_start andb].
+        split.
+        -- constructor; auto. intro Hin. apply Hfr in Hin. rewrite Eu in Hin.
+           apply is_used_cons_false in Hin as [X _]. now apply X.
+        -- intros d [<- | Hin]; auto. apply Hfr in Hin. rewrite Eu in Hin.
+           now apply is_used_cons_false in Hin.
+    + apply check_req_used in Ec. destruct Ec as [[Eu Hn] | (Hk & _)]; [|discriminate].
+      rewrite Eu in Hfr. auto.
+    + destruct (check_pub _ _ _ _ _ _ _ _); [|discriminate]. inversion Ec; subst. auto.
+Qed.
+
+(* a rejected request changes neither the reported state nor anything that decides behaviour *)
+Lemma rejected_changes_nothing s o q :
+  is_request o = true -> snd (step s o) = OReq q -> o_ok q = false ->
+  rs (fst (step s o)) = rs s /\ chans (fst (step s o)) = chans s /\ used (fst (step s o)) = used s.
+Proof.
+  destruct o as [r|l|ch n]; cbn [is_request]; [| |discriminate]; intros _.
+  - unfold step, step_gen, write_control, write_control_start.
+    destruct (classify (rq_str r)); cbn [fst snd is_ok].
+    + unfold req_obs. intros H; inversion H; subst; cbn; discriminate.
+    + destruct (unpause_arg (rq_str r)); [| |destruct (_ && _)]; cbn [fst snd is_ok]; unfold req_obs;
+        intros H; inversion H; subst; cbn; auto; discriminate.
+    + unfold req_obs. intros H; inversion H; subst; cbn; discriminate.
+    + destruct (negb (rq22 r || rqoff r || rq3 r)); [cbn; auto|].
+      destruct (existsb any_writer (chans s)); [cbn; auto|].
+      destruct (rqoff r && negb (existsb hasproj (chans s))); [cbn; auto|].
+      destruct (negb (mapn s =? -1) && negb (mapn s =? zlen (chans s))); [cbn; auto|].
+      destruct (make_directory _ _); [|cbn; auto].
+      cbn [negb andb fst snd is_ok]. unfold req_obs. intros H; inversion H; subst; cbn; discriminate.
+    + cbn; auto.
+  - unfold step, step_gen, set_label. destruct (zlen l =? 0); [cbn; auto|].
+    destruct (_ && _); cbn; auto.
+Qed.
+
+(* STOP always succeeds, removes every writer and leaves nothing open *)
+Lemma stop_closes_everything s r :
+  classify (rq_str r) = KStop ->
+  exists q, snd (step s (WC r)) = OReq q /\ o_ok q = true /\ o_closed q = true /\
+            active (rs (fst (step s (WC r)))) = false /\
+            Forall (fun c => any_writer c = false) (chans (fst (step s (WC r)))).
+Proof.
+  intro Ek. unfold step, step_gen, write_control. rewrite Ek. cbn [is_ok fst snd]. unfold req_obs.
+  eexists; split; [reflexivity|]. cbn. repeat split; auto.
+  apply Forall_forall. intros x Hx. apply in_map_iff in Hx as [c [<- _]]. reflexivity.
+Qed.
+
+(* START while writing is active is rejected (any source has at least one channel) *)
+Lemma active_has_writer proj s :
+  Inv proj s -> chans s <> [] -> active (rs s) = true -> existsb any_writer (chans s) = true.
+Proof.
+  intros (H1 & H2 & H3 & H4) Hne Ha. specialize (H3 Ha).
+  destruct (t22 (rs s) || t3 (rs s)) eqn:E.
+  - destruct (chans s) as [|c t] eqn:Ec; [congruence|]. inversion H2 as [|? ? (A & B & _) _]; subst.
+    cbn [existsb]. unfold any_writer. rewrite A, B, Ha. cbn.
+    destruct (t22 (rs s)), (t3 (rs s)); cbn in *; try discriminate; auto; now rewrite ?orb_true_r.
+  - cbn [orb] in H3. apply andb_true_iff in H3 as [Ht Hp]. rewrite <- H1, existsb_map in Hp.
+    apply existsb_exists in Hp as [c [Hin Hc]]. apply existsb_exists. exists c. split; auto.
+    eapply Forall_forall in H2; eauto. destruct H2 as (_ & _ & C & _).
+    unfold any_writer. rewrite C, Ha, Ht, Hc. cbn. now rewrite orb_true_r.
+Qed.
+
+Lemma start_while_active_rejected_inv proj s r :
+  Inv proj s -> chans s <> [] -> active (rs s) = true -> classify (rq_str r) = KStart ->
+  exists q, snd (step s (WC r)) = OReq q /\ o_ok q = false.
+Proof.
+  intros HI Hne Ha Ek. pose proof (active_has_writer proj s HI Hne Ha) as Hw.
+  unfold step, step_gen, write_control, write_control_start. rewrite Ek, Hw.
+  destruct (negb (rq22 r || rqoff r || rq3 r)); cbn [is_ok fst snd]; unfold req_obs; eexists; split; reflexivity.
+Qed.
+
+Lemma init_chans_nonempty c : c_proj c <> [] -> forall ops, chans (fst (run (init c) ops)) <> [].
+Proof.
+  intros Hne ops E. pose proof (reachable_inv c ops) as (H1 & _). rewrite E in H1. cbn in H1. congruence.
+Qed.
+
+(* ---------- the full statement ---------- *)
+
+Lemma reported_state_matches_behaviour_full :
+  forall (c : config) (ops : list op),
+    let s := fst (run (init c) ops) in
+    let h := combine ops (snd (run (init c) ops)) in
+    length (snd (run (init c) ops)) = length ops /\
+    C06_check (c_proj c) (c_used c) (rs (init c)) (map writers_of (chans (init c))) h = true /\
+    (forall ch n T, 0 <= ch < zlen (c_proj c) -> 0 < n ->
+       stored (snd (step s (PUB ch n))) T =
+         if expect_store (rs s) (nth (Z.to_nat ch) (c_proj c) false) T then n else 0) /\
+    (NoDup (start_dirs h) /\ forall d, In d (start_dirs h) -> is_used (c_used c) d = false) /\
+    (forall o q, is_request o = true -> snd (step s o) = OReq q -> o_ok q = false ->
+       rs (fst (step s o)) = rs s /\ chans (fst (step s o)) = chans s /\ used (fst (step s o)) = used s) /\
+    (forall r, classify (rq_str r) = KStop ->
+       exists q, snd (step s (WC r)) = OReq q /\ o_ok q = true /\ o_closed q = true /\
+                 active (rs (fst (step s (WC r)))) = false /\
+                 Forall (fun c => any_writer c = false) (chans (fst (step s (WC r))))).
+Proof.
+  intros c ops s h. split; [|split; [|split; [|split; [|split]]]].
+  - eapply run_length, init_inv.
+  - apply model_satisfies_checker.
+  - intros. apply stores_iff_reported_inv; auto. apply reachable_inv.
+  - pose proof (model_satisfies_checker c ops) as H. apply checker_dirs_fresh in H. exact H.
+  - intros. eapply rejected_changes_nothing; eauto.
+  - intros. now apply stop_closes_everything.
+Qed.
+
+Lemma start_while_active_is_rejected :
+  forall (c : config) (ops : list op) (r : wcreq),
+    c_proj c <> [] ->
+    let s := fst (run (init c) ops) in
+    active (rs s) = true -> classify (rq_str r) = KStart ->
+    exists q, snd (step s (WC r)) = OReq q /\ o_ok q = false.
+Proof.
+  intros c ops r Hne s Ha Ek. eapply start_while_active_rejected_inv; eauto.
+  - apply reachable_inv.
+  - now apply init_chans_nonempty.
+Qed.
+
+(* ---------- the tree before the fixes ---------- *)
+
+Definition wPAUSE := {| rq_str := sPAUSE; rq_path := 0; rq22 := false; rq3 := false; rqoff := false |}.
+Definition wSTOP := {| rq_str := sSTOP; rq_path := 0; rq22 := false; rq3 := false; rqoff := false |}.
+Definition wSTART (a b c : bool) := {| rq_str := sSTART; rq_path := 0; rq22 := a; rq3 := b; rqoff := c |}.
+Definition cfg_w : config := {| c_proj := [true; false]; c_used := []; c_map := -1; c_base := 1 |}.
+Definition cfg_map : config := {| c_proj := [true; false]; c_used := []; c_map := 2; c_base := 1 |}.
+Definition witness1 : list op := [WC wPAUSE; WC (wSTART false false true); PUB 0 2].
+Definition witness2 : list op :=
+  [WC (wSTART true false false); WC wPAUSE; WC wSTOP; WC (wSTART false false true); PUB 0 2].
+Definition witness3 : list op := [WC (wSTART true false false)].
+
+Definition check_old (c : config) (ops : list op) : bool :=
+  C06_check (c_proj c) (c_used c) (rs (init c)) (map writers_of (chans (init c)))
+            (combine ops (snd (run_old (init c) ops))).
+
+Lemma refuted_before_fix :
+  check_old cfg_w witness1 = false /\ check_old cfg_w witness2 = false /\
+  (* the state said active and unpaused with OFF on, channel 0 is eligible, and nothing was stored *)
+  nth 2 (snd (run_old (init cfg_w) witness1)) OPanic = OPub 0 0 0 false 0 /\
+  expect_store (rs (fst (run_old (init cfg_w) witness1))) true OFF = true /\
+  (* START with a pixel map loaded panicked *)
+  snd (run_old (init cfg_map) witness3) = [OPanic] /\ check_old cfg_map witness3 = false.
+Proof. vm_compute. repeat split; reflexivity. Qed.
+
+(* the hypotheses of the theorems above are satisfiable / the statements are not vacuous *)
+Lemma example_nontrivial :
+  let s := fst (run (init cfg_w) witness2) in
+  c_proj cfg_w <> [] /\ 0 <= 0 < zlen (c_proj cfg_w) /\
+  active (rs s) = true /\ stored (snd (step s (PUB 0 2))) OFF = 2 /\ stored (snd (step s (PUB 1 2))) OFF = 0 /\
+  start_dirs (combine witness2 (snd (run (init cfg_w) witness2))) = [(1, 0); (1, 1)].
+Proof. vm_compute. repeat split; try reflexivity; try discriminate. Qed.
+
+(* ---------- how requests move the [active] flag (used by C20) ---------- *)
+
+Lemma inv_chans_nonempty proj s : Inv proj s -> proj <> [] -> chans s <> [].
+Proof. intros (H1 & _) Hne E. rewrite E in H1. cbn in H1. congruence. Qed.
+
+Lemma wc_effect proj s r :
+  Inv proj s -> proj <> [] ->
+  exists s' q, step s (WC r) = (s', OReq q) /\ Inv proj s' /\
+    o_closed q = negb (active (rs s')) /\
+    match classify (rq_str r) with
+    | KStart => if o_ok q then active (rs s) = false /\ active (rs s') = true
+                else active (rs s') = active (rs s)
+    | KStop => o_ok q = true /\ active (rs s') = false
+    | KUnpause => active (rs s') = active (rs s) /\
+                  match unpause_arg (rq_str r) with
+                  | ULabel l => o_ok q = true -> active (rs s) = true /\ single_line l = true
+                  | _ => True
+                  end
+    | _ => active (rs s') = active (rs s)
+    end.
+Proof.
+  intros HI Hne.
+  pose proof (wc_check proj s r HI) as Hc.
+  pose proof (inv_chans_nonempty proj s HI Hne) as Hch.
+  destruct (classify (rq_str r)) eqn:Ek.
+  - unfold step, step_gen, write_control in *. rewrite Ek in *. cbn [is_ok] in *.
+    destruct Hc as (k' & _ & HI' & _). unfold req_obs. do 2 eexists. split; [reflexivity|]. split; [exact HI'|].
+    cbn. auto.
+  - unfold step, step_gen, write_control in *. rewrite Ek in *.
+    destruct (unpause_arg (rq_str r)) eqn:Eu.
+    + cbn [is_ok] in *. destruct Hc as (k' & _ & HI' & _). unfold req_obs. do 2 eexists.
+      split; [reflexivity|]. split; [exact HI'|]. cbn. auto.
+    + cbn [is_ok] in *. unfold req_obs. do 2 eexists. split; [reflexivity|]. split; [exact HI|]. cbn. auto.
+    + destruct (active (rs s) && (negb true || single_line l)) eqn:Ea.
+      * cbn [is_ok] in *. destruct Hc as (k' & _ & HI' & _). unfold req_obs. do 2 eexists.
+        split; [reflexivity|]. split; [exact HI'|]. cbn. split; auto. split; auto. intros _.
+        apply andb_true_iff in Ea. cbn in Ea. exact Ea.
+      * cbn [is_ok] in *. unfold req_obs. do 2 eexists. split; [reflexivity|]. split; [exact HI|]. cbn.
+        split; auto. split; auto. discriminate.
+  - unfold step, step_gen, write_control in *. rewrite Ek in *. cbn [is_ok] in *.
+    destruct Hc as (k' & _ & HI' & _). unfold req_obs. do 2 eexists. split; [reflexivity|]. split; [exact HI'|].
+    cbn. auto.
+  - destruct (active (rs s)) eqn:Ea.
+    + (* active: rejected *)
+      pose proof (active_has_writer proj s HI Hch Ea) as Hw.
+      unfold step, step_gen, write_control, write_control_start. rewrite Ek, Hw.
+      destruct (negb (rq22 r || rqoff r || rq3 r)); cbn [is_ok]; unfold req_obs; do 2 eexists;
+        (split; [reflexivity|]); (split; [exact HI|]); cbn; auto.
+    + unfold step, step_gen, write_control, write_control_start in *. rewrite Ek in *.
+      destruct (negb (rq22 r || rqoff r || rq3 r)).
+      { cbn [is_ok]; unfold req_obs; do 2 eexists; (split; [reflexivity|]); (split; [exact HI|]); cbn; auto. }
+      destruct (existsb any_writer (chans s)).
+      { cbn [is_ok]; unfold req_obs; do 2 eexists; (split; [reflexivity|]); (split; [exact HI|]); cbn; auto. }
+      destruct (rqoff r && negb (existsb hasproj (chans s))).
+      { cbn [is_ok]; unfold req_obs; do 2 eexists; (split; [reflexivity|]); (split; [exact HI|]); cbn; auto. }
+      destruct (negb (mapn s =? -1) && negb (mapn s =? zlen (chans s))).
+      { cbn [is_ok] in *. destruct Hc as (k' & _ & HI' & _).
+        unfold req_obs; do 2 eexists; (split; [reflexivity|]); (split; [exact HI'|]); cbn; auto. }
+      destruct (make_directory _ _).
+      2:{ cbn [is_ok]; unfold req_obs; do 2 eexists; (split; [reflexivity|]); (split; [exact HI|]); cbn; auto. }
+      cbn [negb andb is_ok] in *. destruct Hc as (k' & _ & HI' & _).
+      unfold req_obs; do 2 eexists; (split; [reflexivity|]); (split; [exact HI'|]); cbn; auto.
+  - unfold step, step_gen, write_control in *. rewrite Ek in *. cbn [is_ok] in *.
+    unfold req_obs. do 2 eexists. split; [reflexivity|]. split; [exact HI|]. cbn. auto.
+Qed.
+
+Lemma label_effect proj s l :
+  Inv proj s ->
+  exists q, step s (LABEL l) = (s, OReq q) /\ o_closed q = negb (active (rs s)) /\
+            (o_ok q = true -> active (rs s) = true /\ single_line l = true).
+Proof.
+  intro HI. unfold step, step_gen, set_label.
+  destruct (zlen l =? 0).
+  - cbn [is_ok]. unfold req_obs. eexists. split; [reflexivity|]. cbn. split; auto. discriminate.
+  - destruct (active (rs s) && (negb true || single_line l)) eqn:Ea; cbn [is_ok]; unfold req_obs;
+      eexists; (split; [reflexivity|]); cbn; split; auto; try discriminate.
+    intros _. apply andb_true_iff in Ea. cbn in Ea. exact Ea.
+Qed.
+
+Lemma pub_effect proj s ch n :
+  Inv proj s -> Inv proj (fst (step s (PUB ch n))) /\ rs (fst (step s (PUB ch n))) = rs s.
+Proof.
+  intro HI. pose proof (pub_check proj s ch n HI) as H. unfold step, step_gen in *.
+  destruct ((0 <=? ch) && (ch <? zlen (chans s))); [|cbn; auto].
+  destruct (nth_error (chans s) (Z.to_nat ch)); [|cbn; auto].
+  destruct (publish_chan c n) as [c' d]. destruct H as (k' & _ & HI' & _). cbn. auto.
+Qed.
